@@ -30,7 +30,7 @@
 (***************************************************************************)
 EXTENDS Naturals, Sequences, FiniteSets, TLC, Json, SequencesExt
 
-CONSTANTS Part,               \* "lines" | "sessions" | "c15" | "c15seq" | "c19"
+CONSTANTS Part,               \* "lines" | "mixed" | "sessions" | "c15" | "c15seq" | "c19"
           MaxLinesA,          \* sessions: maximal number of lines of session 1
           MaxLinesB,          \* sessions: maximal number of lines of session 2 (the concurrent one)
           KF_FindUnitRelock,  \* TRUE: findUnit keeps its read lock across scanForUnit, which read-locks again and then
@@ -38,6 +38,8 @@ CONSTANTS Part,               \* "lines" | "sessions" | "c15" | "c15seq" | "c19"
           MaxOps,             \* c19: maximal number of operations after the submit
           ExportOps,          \* c19: histories up to this length are exported for every key set of the family
           KeyFamily,          \* c19: "all" (every subset of the key classes) or "cover" (a covering family of subsets)
+          RequestStateKeptAcrossLines, \* sessions: FALSE = the code (every line is decoded into fresh state); TRUE = the decoded JSON object of an
+                              \*           earlier line of the session is still there when a later plain line is dispatched
           VerifierRemembersTokens, \* c15seq: FALSE = the code (a token is verified afresh at every use); TRUE = token strings that verified once are accepted from a cache
           RedactNeedsTLSRecord, \* c19: FALSE = the code (redaction looks at the keys only); TRUE = redaction skipped for units without a recorded TLS profile
           DumpFile            \* "" or the NDJSON file the vectors of this part are written to
@@ -399,7 +401,15 @@ Programs(kind, un) ==
     [] kind = "stream"   -> {<<>>, AllocOps}                            \* connect / submit
     [] kind = "stream_unit" -> {IF un.u = "mem" THEN FindHit \o FindHit ELSE FindMissNoDir}   \* results: findUnit, then GetResults finds it again
 
-SessInit == [sent |-> <<>>, got |-> <<>>, prog |-> <<>>, busy |-> FALSE, mode |-> "cmd"]
+\* Per-line independence is the rule of the code: RunControlSession declares the command, its parameter string and the
+\* decoded JSON object afresh for every line, so what a line is answered depends on that line (and the units) only - not
+\* on whether earlier lines of the session were JSON or plain text, nor on their fields.  form: how the line is written;
+\* stale: some earlier line of this session was decoded into a JSON object.
+FormsOf(kind) ==      \* (under the code's rule the form cannot matter, so it is only distinguished when the rule is switched off)
+  CASE ~RequestStateKeptAcrossLines \/ kind \in {"empty", "abort", "eof_partial"} -> {"plain"}
+    [] kind = "err2" -> {"json_object", "json_bad"}          \* an object without a usable command / text that does not decode
+    [] OTHER -> {"plain", "json_object"}
+SessInit == [sent |-> <<>>, got |-> <<>>, prog |-> <<>>, busy |-> FALSE, mode |-> "cmd", form |-> "plain", stale |-> FALSE]
 
 OpEnabled(s, op) ==
   CASE op = "R"  -> lk.wr = 0 /\ lk.ww = {}              \* a pending writer blocks new readers (also re-entrant ones)
@@ -418,8 +428,8 @@ DoOp(s, op) ==
 \* a client sends its next line; the handler's program is chosen
 Send(s, kind) ==
   /\ ss[s].mode = "cmd" /\ ~ss[s].busy /\ Len(ss[s].sent) < MaxLinesOf(s)
-  /\ \E p \in Programs(kind, du[s]) :
-       ss' = [ss EXCEPT ![s].sent = Append(@, kind), ![s].prog = p, ![s].busy = TRUE]
+  /\ \E p \in Programs(kind, du[s]), f \in FormsOf(kind) :
+       ss' = [ss EXCEPT ![s].sent = Append(@, kind), ![s].prog = p, ![s].busy = TRUE, ![s].form = f]
   /\ UNCHANGED <<du, lk>>
 
 \* one lock operation of the handler
@@ -434,8 +444,11 @@ Step(s) ==
 Reply(s) ==
   /\ ss[s].busy /\ ss[s].prog = <<>>
   /\ LET kind == ss[s].sent[Len(ss[s].sent)]
-         r == Seq1(kind, du[s]) IN
-     /\ ss' = [ss EXCEPT ![s].got = Append(@, r.reply), ![s].busy = FALSE,
+         r == Seq1(kind, du[s])
+         \* with request state kept across lines a plain line after a decoded object is initialised from that old object
+         misread == RequestStateKeptAcrossLines /\ ss[s].stale /\ ss[s].form = "plain" /\ kind # "empty" IN
+     /\ ss' = [ss EXCEPT ![s].got = Append(@, IF misread THEN "misread" ELSE r.reply), ![s].busy = FALSE,
+                         ![s].stale = @ \/ ss[s].form = "json_object",
                          ![s].mode = IF EndsSession(kind, r.reply) THEN "closed" ELSE "cmd"]
      /\ du' = [du EXCEPT ![s] = r.un]
   /\ UNCHANGED lk
@@ -457,6 +470,7 @@ RunSeq(kinds, un) ==
 
 Isolation ==     \* what a session is answered depends on its own lines only, never on the other session
   Part = "sessions" => \A s \in Sessions : ss[s].got = SubSeq(RunSeq(ss[s].sent, UnitsInit), 1, Len(ss[s].got))
+LineIndependence == Isolation     \* the same statement read per line: the answer does not depend on the form or fields of earlier lines
 SessionContinues ==
   Part = "sessions" => \A s \in Sessions :
      ss[s].mode = "closed" => LET n == Len(ss[s].got) IN n > 0 /\ EndsSession(ss[s].sent[n], ss[s].got[n])
@@ -475,6 +489,38 @@ SeqsUpTo(n) ==
 
 SessVec(a, b) == [a |-> a, b |-> b, expect_a |-> RunSeq(a, UnitsInit), expect_b |-> RunSeq(b, UnitsInit)]
 SessionVectors == { SessVec(a, b) : a \in SeqsUpTo(MaxLinesA) \ {<<>>}, b \in SeqsUpTo(MaxLinesB) }
+
+(***************************************************************************)
+(*     PART "mixed" : a JSON line, then another line, on one session       *)
+(***************************************************************************)
+\* Carriers: every line class that decodes into a JSON object (valid command or not, every field type) and leaves the
+\* session open.  Followers: well-formed commands in plain and JSON form whose answer has a checkable content.  By the
+\* rule of per-line independence the follower is answered exactly as on a fresh session.
+RawJsonObjectIds == {"json_no_command", "json_command_number", "json_command_null", "json_command_bool", "json_command_array",
+                     "json_command_object", "json_command_unknown", "json_command_upper", "json_empty_object", "json_dup_command", "long_valid_json"}
+Carriers == { c \in LineClasses :
+                /\ \/ c.fam = "json" /\ c.cmd # "reload"
+                   \/ c.fam = "uid" /\ c.form = "json"
+                   \/ c.fam = "raw" /\ c.id \in RawJsonObjectIds
+                /\ Answer(c).cont
+                /\ KindOf(c) \in {"err", "err2", "json", "q_unit"} }
+FollowerSpecs ==     \* <<class, what the answer must contain>>
+  { <<LC("plain", "-", "status", "-", 0, "-", "-", "-", "-", "-", "plain"), "status_all_fields">>,
+    <<LC("json", "-", "status", "-", 0, "-", "requested_fields", "absent", "-", "-", "json"), "status_all_fields">>,
+    <<LC("plain", "-", "ping", "-", 1, "self", "-", "-", "-", "-", "plain"), "ping_from_self">>,
+    <<LC("plain", "-", "ping", "-", 1, "unknown_node", "-", "-", "-", "-", "plain"), "ping_no_route">>,
+    <<LC("json", "-", "ping", "-", 0, "-", "target", "string", "self", "-", "json"), "ping_from_self">>,
+    <<LC("plain", "-", "work", "list", 0, "-", "-", "-", "-", "-", "plain"), "list_all">>,
+    <<LC("json", "-", "work", "list", 0, "-", "unitid", "absent", "-", "-", "json"), "list_all">>,
+    <<LC("uid", "-", "work", "status", 1, "-", "unitid", "string", "-", "existing", "plain"), "unit_status">>,
+    <<LC("uid", "-", "work", "status", 1, "-", "unitid", "string", "-", "existing", "json"), "unit_status">>,
+    <<LC("plain", "-", "work", "status", 0, "-", "-", "-", "-", "-", "plain"), "-">>,
+    <<LC("plain", "-", "connect", "-", 1, "words", "-", "-", "-", "-", "plain"), "-">> }
+MixedVec(c, f) == [a |-> LineVec(c), b |-> LineVec(f[1]), must |-> f[2]]
+MixedVectors == { MixedVec(c, f) : c \in Carriers, f \in FollowerSpecs }
+FollowersAreLineClasses == Part = "mixed" => lc.b.class \in LineClasses
+FollowerAnsweredAsOnFreshSession == Part = "mixed" => lc.b.expect = Answer(lc.b.class) /\ lc.b.expect.cont
+W_NoInvalidCarrier == ~(Part = "mixed" /\ ~lc.a.wellformed /\ lc.b.class.fam = "plain")
 
 (***************************************************************************)
 (*              PART "c15" : who may drive signed work                     *)
@@ -580,6 +626,9 @@ SeqVectors15 == UNION { { SeqVec15(q) : q \in SeqShapes15(a, b) } : a \in UseSte
 (***************************************************************************)
 (*            PART "c19" : secret parameters of remote work                *)
 (***************************************************************************)
+\* key-spelling classes; in a concrete submission every class of the set is represented by one or more keys of that spelling
+\* (several ordinary keys next to the secret ones), and a submission that must be refused is sent repeatedly: the verdict
+\* on a parameter map is a function of the SET of keys, never of the order in which the map happens to be walked
 Keys19 == {"secret_x", "SECRET_x", "Secret_X", "xsecret_", "secret", "plain"}
 \* strings.HasPrefix(strings.ToLower(k), "secret_")
 Lower19(k) == CASE k = "SECRET_x" -> "secret_x" [] k = "Secret_X" -> "secret_x" [] OTHER -> k
@@ -699,7 +748,7 @@ Vectors19 == { Vec19(ks, tls, "ok", ops) : ks \in KeySets19, tls \in BOOLEAN, op
 (*                          the state machine                              *)
 (***************************************************************************)
 Init ==
-  /\ lc  \in (IF Part = "lines" THEN LineClasses ELSE {Parked})
+  /\ lc  \in (IF Part = "lines" THEN LineClasses ELSE IF Part = "mixed" THEN MixedVectors ELSE {Parked})
   /\ ss  = IF Part = "sessions" THEN [s \in Sessions |-> SessInit] ELSE Parked
   /\ du  = IF Part = "sessions" THEN [s \in Sessions |-> UnitsInit] ELSE Parked
   /\ lk  = IF Part = "sessions" THEN [rd |-> [s \in Sessions |-> 0], wr |-> 0, ww |-> {}] ELSE Parked
@@ -716,6 +765,7 @@ Spec == Init /\ [][Next]_vars
 \* ---- export of the vectors of the selected part
 Export ==
   CASE Part = "lines"    -> SetToSeq({ LineVec(c) : c \in LineClasses })
+    [] Part = "mixed"    -> SetToSeq(MixedVectors)
     [] Part = "sessions" -> SetToSeq(SessionVectors)
     [] Part = "c15"      -> SetToSeq(Vectors15)
     [] Part = "c15seq"   -> SetToSeq(SeqVectors15)
